@@ -11,9 +11,11 @@ mkdir -p lean/Pw/Generated
 if ! cmp -s lean/Pw/Generated/Trans.lean.new lean/Pw/Generated/Trans.lean; then mv lean/Pw/Generated/Trans.lean.new lean/Pw/Generated/Trans.lean; else rm lean/Pw/Generated/Trans.lean.new; fi
 ./bin/pwtranslate -copy "${VERIF_REPO:-/repo}" > lean/Pw/Generated/TransCopy.lean.new
 if ! cmp -s lean/Pw/Generated/TransCopy.lean.new lean/Pw/Generated/TransCopy.lean; then mv lean/Pw/Generated/TransCopy.lean.new lean/Pw/Generated/TransCopy.lean; else rm lean/Pw/Generated/TransCopy.lean.new; fi
+./bin/pwtranslate -error "${VERIF_REPO:-/repo}" > lean/Pw/Generated/TransError.lean.new
+if ! cmp -s lean/Pw/Generated/TransError.lean.new lean/Pw/Generated/TransError.lean; then mv lean/Pw/Generated/TransError.lean.new lean/Pw/Generated/TransError.lean; else rm lean/Pw/Generated/TransError.lean.new; fi
 ./bin/pwextract "${VERIF_REPO:-/repo}" > lean/Pw/Generated/Facts.lean.new
 if ! cmp -s lean/Pw/Generated/Facts.lean.new lean/Pw/Generated/Facts.lean; then mv lean/Pw/Generated/Facts.lean.new lean/Pw/Generated/Facts.lean; else rm lean/Pw/Generated/Facts.lean.new; fi
-(cd lean && lake build Pw pwdriver Pw.Conformance Pw.Props.All Pw.Props.Tie Pw.Props.TieFraming Pw.Props.TieWriter Pw.Props.TieCopy Pw.Props.TieSlurp)
+(cd lean && lake build Pw pwdriver Pw.Conformance Pw.Props.All Pw.Props.Tie Pw.Props.TieFraming Pw.Props.TieWriter Pw.Props.TieCopy Pw.Props.TieSlurp Pw.Props.TieError)
 cp "${VERIF_REPO:-/repo}/go.sum" go/harness/go.sum
 (cd go/harness && go build -tags verif -o ../../bin/pwharness .)
 echo "setup done"
